@@ -63,6 +63,7 @@ def check(program: Program, run: Run) -> None:
     run.rule("cell grammar: _apply_pagination('<QS>') for each (class, limit, offset, orderbys[, top]) equals the dialect's reference clause")
     run.rule("presence-only: selectors fold to constants given presence values (no dependence on the number)")
     run.rule("zero-dropped: presence of a bare int (TOP) must be tested with `is None`, not truthiness")
+    run.rule("param-slot-order (inherited from C04/R2): in every statement class the pagination slots are evaluated in the order they are printed")
     run.rule("setters: limit->_limit, offset->_offset, slice.start->_offset, slice.stop->_limit, fetch_next->_limit; none reads other pagination state")
     run.exhaustive = True
     vw = program.cls("ValueWrapper")
@@ -190,3 +191,21 @@ def _setters(program: Program, run: Run) -> None:
     # __getitem__ forwards slices to slice()
     if n < 5:
         raise AnalysisError(f"instance count below floor: pagination setters {n}")
+
+    # ---- inherited from C04: "the limit and offset values occupy the matching slots ... in the parameter list" -- the
+    # parameter list is filled in evaluation order, so the pagination slots must be evaluated in the order they are printed
+    from . import c04
+    sub = Run("C04", run.tier)
+    c04.check(program, sub)
+    PAG = ("_limit", "_offset", "_top")
+    npag = 0
+    for o in sub.obligations:
+        if o.rule.startswith("C04/R2 evaluation order") and (o.subject.endswith("QueryBuilder") or o.subject == "_SetOperation"):
+            npag += 1
+            run.ob("C09 (inherited from C04) pagination values enter the parameter list in the order their placeholders are printed", o.subject, o.ok, o.detail, o.where)
+    for fd in sub.findings:
+        if not fd.info and fd.key.startswith("C04/eval-order:") and any(a in fd.key for a in PAG):
+            run.finding("C09/param-slot-order:" + fd.key.split(":", 1)[1], "limit/offset values land in each other's parameter slots: " + fd.what, where=fd.where, rule="inherited from C04 (evaluation order)")
+    run.analysed["pagination_order_obligations"] = npag
+    if npag < 6:
+        raise AnalysisError(f"instance count below floor: statement classes with evaluation-order obligations {npag}")
